@@ -34,6 +34,24 @@ type StructCase struct {
 	// and configured, right before Valid.  The name is a placeholder (LATE1) that every
 	// execution replaces by a fresh one (registrations cannot be undone).
 	LateReg string `json:"latereg,omitempty"`
+	// Token: how the struct type of a per-type rule set is named in SetRule / NestedStructForRule:
+	// "" = &T{}, "nilptr" = (*T)(nil), "ptrptr" = a **T whose inner pointer is nil, "value" = T{} (SetRule only)
+	Token string `json:"token,omitempty"`
+}
+
+// typeToken builds the value that names struct type ty in a registration.
+func (c *StructCase) typeToken(ty reflect.Type, mapKey bool) interface{} {
+	switch c.Token {
+	case "nilptr":
+		return reflect.Zero(reflect.PtrTo(ty)).Interface()
+	case "ptrptr":
+		return reflect.New(reflect.PtrTo(ty)).Interface()
+	case "value":
+		if !mapKey { // (a struct value with slice fields cannot be a map key)
+			return reflect.New(ty).Elem().Interface()
+		}
+	}
+	return reflect.New(ty).Interface()
 }
 
 // freshLate returns a copy of the case with the LATE placeholders replaced by unused names.
@@ -128,7 +146,7 @@ func (c *StructCase) call(src interface{}) error {
 		}
 		sort.Strings(names)
 		for _, n := range names {
-			vs.SetRule(toRM(c.PerType[n]), reflect.New(lib.Types[n]).Interface())
+			vs.SetRule(toRM(c.PerType[n]), c.typeToken(lib.Types[n], false))
 		}
 	}
 	if c.LateReg != "" && c.Entry != "VStruct" && c.Entry != "" {
@@ -172,7 +190,7 @@ func (c *StructCase) call(src interface{}) error {
 	case "Nested":
 		m := map[interface{}]valid.RM{}
 		for n, rm := range c.PerType {
-			m[reflect.New(lib.Types[n]).Interface()] = toRM(rm)
+			m[c.typeToken(lib.Types[n], true)] = toRM(rm)
 		}
 		return valid.NestedStructForRule(src, m)
 	}
@@ -190,7 +208,7 @@ func (c *StructCase) call(src interface{}) error {
 	}
 	if c.Twice {
 		for n, rm := range c.PerType {
-			vs.SetRule(decoyOf(rm), reflect.New(lib.Types[n]).Interface())
+			vs.SetRule(decoyOf(rm), c.typeToken(lib.Types[n], false))
 		}
 	}
 	perType(vs)
